@@ -333,12 +333,6 @@ func (c09) Run(c *Case, src *vs.Src) *Result {
 	pj, _ := json.Marshal(p)
 	r.Key = hashKey(string(pj))
 	r.Outcome = fmt.Sprintf("%s err=%v", reason, realErr != nil)
-	if w.Reason == vs.Hang {
-		// in this property a task that does not yield is the finding, not an infrastructure problem
-		r.Infra = ""
-		r.Violate("spin", sigp+" spin "+p.Mode+" "+p.Kind+p.Flood, "a task did not yield within the wall-clock watchdog: %v", unf)
-		return r
-	}
 	if reason == vs.Budget {
 		r.Violate("livelock", sigp+" step-budget "+p.Mode+" "+p.Kind+p.Flood, "step budget exhausted: the endpoint keeps running without finishing (unfinished %v)", unf)
 	}
